@@ -412,7 +412,9 @@ func (rt *pxRt) step(st pxStep) {
 		case "stuck":
 			c.l.s2c.with(func() { tr.emit(e); c.l.s2c.stuck = true })
 		case "unstick":
-			c.l.s2c.with(func() { tr.emit(e); c.l.s2c.stuck = false })
+			c.l.s2c.with(func() { tr.emit(e); c.l.s2c.stuck, c.l.s2c.wpass = false, 0 })
+		case "pass": // a stuck peer takes exactly one more envelope
+			c.l.s2c.with(func() { tr.emit(e); c.l.s2c.wpass++ })
 		case "rfail":
 			c.l.c2s.with(func() { tr.emit(e); c.l.c2s.rerr = errInjected })
 		case "wfail":
